@@ -187,6 +187,11 @@ func (check typecheck) shift(n *node) error {
 	if c0.typ.untyped && c0.rval.IsValid() {
 		v0 = constant.ToInt(c0.rval.Interface().(constant.Value))
 		c0.rval = reflect.ValueOf(v0)
+		if v0.Kind() == constant.Int && !isInt(t0) {
+			// An untyped constant left operand representable as an integer is converted to untyped int.
+			c0.typ = untypedInt(c0)
+			t0 = c0.typ.TypeOf()
+		}
 	}
 
 	if !(c0.typ.untyped && v0 != nil && v0.Kind() == constant.Int || isInt(t0)) {
